@@ -201,11 +201,14 @@ def work_generated(ctx, seed):
 def work_patho(ctx, seed):
     import random
     rng = random.Random(seed)
-    pool = [f for f in gen.PATHOLOGICAL if f is not gen.patho_contraction_on_free]
+    pool = [f for f in gen.PATHOLOGICAL if f is not gen.patho_contraction_on_free] + gen.NOT_VALIDATOR_VALID
     which = pool[seed % len(pool)]
     b = which(rng)
     label = 'patho:%s:%d' % (which.__name__, seed)
+    nosort = which in gen.NOT_VALIDATOR_VALID       # a zero contraction cannot be normalised: sorting is not defined there
     for op, args in OPS:
+        if nosort and op == 'sort_basis':
+            continue
         check_op(ctx, b, op, args, label, 'patho:' + which.__name__)
     # chains (the result of one call is the argument of the next, with whatever list sharing the first call left in it):
     # what the writers do before printing (uncontract_spdf / make_general, then sort_basis)
@@ -214,6 +217,8 @@ def work_patho(ctx, seed):
     chains += [[rng.choice(OPS) for _ in range(rng.randint(2, 3))] for _ in range(3)]
     from basis_set_exchange import manip, sort
     for chain in chains:
+        if nosort and any(o == 'sort_basis' for o, _ in chain):
+            continue
         cur = copy.deepcopy(b)
         ok = True
         for op, args in chain:
